@@ -67,6 +67,31 @@ class _Timeout(Exception):
     pass
 
 
+def _symbolic_divisor(t):
+    """`/` or `\\` whose right operand contains a variable: sympy normalises Mod / floor symbolically (e.g.
+    Mod(X, -3*X) -> X in sympy 1.12), which the glue model does not predict; acceptance and registration order
+    are still compared, the VALUE is not"""
+    from clingo.ast import ASTType, BinaryOperator, Transformer
+    hit = []
+
+    class V(Transformer):
+        def visit_BinaryOperation(self, b):
+            if b.operator_type in (BinaryOperator.Modulo, BinaryOperator.Division):
+                inner = []
+
+                class W(Transformer):
+                    def visit_Variable(self, v):
+                        inner.append(v)
+                        return v
+                W().visit(b.right)
+                if inner:
+                    hit.append(b)
+            self.visit_children(b)
+            return b
+    V().visit(t)
+    return bool(hit)
+
+
 class limit:
     """wall-clock guard around sympy calls (random unevaluated trees can make sympy very slow)"""
 
@@ -464,7 +489,7 @@ class Ast2SympyAccepts:
                 co = ser.lst([skey(k) for k in gb._constants])  # pylint: disable=protected-access
                 obs = f"(Ok ({ser.b(r is not None)}, {fo}, {co}))"
                 shown = str(r)
-                if r is not None:
+                if r is not None and not _symbolic_divisor(t):
                     syms = sorted(r.free_symbols, key=lambda s: s.name)
                     names = sorted({s.name for s in syms} | {k.name for k in gb._fo_vars}  # pylint: disable=protected-access
                                    | {k.name for k in gb._constants})  # pylint: disable=protected-access
